@@ -27,7 +27,7 @@ def run(tier):
     if not ck.add_mc("JlsFile discipline generator MaxChunks=%d" % (5 if thorough else 4), r):
         ck.violation({"where": "model", "config": "JlsFile_mc", "invariant": r.violated})
 
-    nprog = 600 if thorough else 120
+    nprog = 8000 if thorough else 120
     programs = []
     for i in range(nprog):
         twr = (i % 5 == 4)
@@ -35,9 +35,18 @@ def run(tier):
                                             maxlen=20000 if thorough else 5000)
         p["ops"].append({"op": "liftlog"})
         programs.append(p)
+    for nanno in [3, 120] + ([rng.randint(1, 260) for _ in range(30)] if thorough else []):
+        # no FSR signal at all: only the global annotation track and the user-data list are maintained
+        p, model = progs.nofsr_writer_program(rng, len(programs) + 1, "c14-nofsr", nanno)
+        p["ops"].append({"op": "liftlog"})
+        programs.append(p)
+    import shapes
+    for p, model in shapes.programs(ck, rng, "c14-shape", thorough, 20000 if thorough else 800, x0=len(programs)):
+        p["ops"].append({"op": "liftlog"})
+        programs.append(p)
     trace, abnormal = runner.run_programs(programs, seed=C.seed(), tag="c14")
     nev = sum(1 for _ in open(trace))
-    ck.log("executed %d writer programs on the real library: %d events, %d abnormal terminations" % (nprog, nev, len(abnormal)))
+    ck.log("executed %d writer programs on the real library: %d events, %d abnormal terminations" % (len(programs), nev, len(abnormal)))
     v = C.validate_trace("JlsWriteOnceTrace", "JlsWriteOnceTrace.cfg", trace, timeout=1500)
     nwrites = 0
     for p in v.tlc.prints:
@@ -60,7 +69,7 @@ def run(tier):
         pf = os.path.join(sc, "c14_prog_%d.json" % x)
         json.dump(byx[x], open(pf, "w"))
         ck.violation({"where": "implementation", "execution": x, "reason": "writer " + kind, "feat": byx[x]["feat"]}, [pf])
-    ck.cov["traces_validated_against_impl"] = nprog - len({r[0] for r in v.rejections})
+    ck.cov["traces_validated_against_impl"] = len(programs) - len({r[0] for r in v.rejections})
     ck.cov["evaluations"] = nwrites
     ck.cov["distinct_nontrivial"] = sum(1 for l in open(trace) if '"kind":"overwrite"' in l or '"kind":"filehdr"' in l)
     ck.cov["rule"] = "one case per backend write of a generated writer program; non-trivial = in-place writes (header, head table, file header)"
